@@ -433,6 +433,24 @@ func main() {
 			checkHdr(fmt.Sprintf("body%d", n), &refage.Header{Stanzas: []refage.Stanza{{Type: "t", Args: []string{"a"}, Body: body(n)}, {Type: "u", Body: body(n / 2)}}, MAC: macs[2]})
 			k++
 		}
+		// after a Marshal whose writer failed (at every write call, with or without a partial count) a later Marshal is unaffected
+		if c.Shard == 0 {
+			hA := &refage.Header{Stanzas: []refage.Stanza{{Type: "X25519", Args: []string{strings.Repeat("a", 43)}, Body: body(32)}, {Type: "t", Args: []string{"b", "c"}, Body: body(100)}}, MAC: macs[2]}
+			for k := 0; k < 24; k++ {
+				for _, partial := range []bool{false, true} {
+					fw := &failingWriter{failAt: k, partial: partial}
+					fh := &format.Header{MAC: hA.MAC}
+					for _, st := range hA.Stanzas {
+						st := st
+						fh.Recipients = append(fh.Recipients, &format.Stanza{Type: st.Type, Args: st.Args, Body: st.Body})
+					}
+					fh.Marshal(fw)
+					for rep := 0; rep < 2; rep++ {
+						checkHdr(fmt.Sprintf("after-failed-write.k%d.p%v.r%d", k, partial, rep), &refage.Header{Stanzas: []refage.Stanza{{Type: "u", Args: []string{"x"}, Body: body(20 + rep)}}, MAC: macs[0]})
+					}
+				}
+			}
+		}
 		c.Sample(map[string]interface{}{"stanzas": 2, "body_len": 96, "note": "Marshal == reference serialiser, Parse(Marshal) == header"})
 	})
 }
@@ -456,4 +474,22 @@ func validHeaders(mac string) [][]byte {
 		out = append(out, refage.Marshal(h))
 	}
 	return out
+}
+
+// failingWriter accepts failAt Write calls, then fails (optionally after accepting half of the data).
+type failingWriter struct {
+	failAt  int
+	partial bool
+	calls   int
+}
+
+func (w *failingWriter) Write(p []byte) (int, error) {
+	w.calls++
+	if w.calls > w.failAt {
+		if w.partial {
+			return len(p) / 2, io.ErrClosedPipe
+		}
+		return 0, io.ErrClosedPipe
+	}
+	return len(p), nil
 }
